@@ -1,0 +1,14 @@
+//go:build verif
+
+// Contracts for deductive verification (comment-only; read by /verif/govc, never compiled into the product).
+
+package executor
+
+// ---------------------------------------------------------------------------------------------------------
+// C17: no trigger request makes the executor crash: a TriggerHook addressed to a task that is not a hook task is refused
+// and nothing is triggered (the goroutine that serves the message calls Trigger only on the hook task it found).
+//@ closure handleMessageEvent #1
+//@   property C17
+//   (the task table holds tasks built by executable.NewTask: never a nil pointer wrapped in the interface)
+//@   requires activeTask is *executable.HookTask ==> activeTask.(*executable.HookTask) != nil
+//@   on call (*executable.HookTask).Trigger : assert arg0 != nil
